@@ -9,6 +9,7 @@ ROUNDS["g"] = 'THIS ROUND: make it a STRUCTURAL or API-LEVEL change rather than 
 ROUNDS["h"] = """THIS ROUND: make it TWO COOPERATING EDITS at two different sites (two functions, preferably in two different files), each of which looks fine - even like an improvement - when reviewed alone, and each of which ALONE leaves the property intact (check that: with only edit A, or only edit B, your demo must pass); only together do they break the property. Examples of the kind wanted: a producer starts returning a value in another unit / convention / order / type and ONE of several consumers is updated but another is not; a default is changed in a callee and a caller that relied on the old default is left; a validation is moved from one layer to another and one entry path now skips it; a normalisation (copy, change of scale, form conversion, modulo, sort) is removed at one site "because the other site already does it" while that other site is simultaneously relaxed; a helper gains a keyword whose default differs from what one caller needs. The location is free (anchored files or anything they use). Keep both edits small; do not add comments that give it away."""
 ROUNDS["i"] = """THIS ROUND: exploit a PYTHON / NUMPY SEMANTIC SUBTLETY, so that the edited code reads as equivalent to the original to somebody comparing the two versions expression by expression, yet behaves differently for some inputs. Examples of the kind wanted: a name that now resolves to something else (a local, module-level name or import that shadows a builtin / numpy function / another helper of the same name; `from math import ...` instead of `from numpy import ...` where arrays or out-of-domain values occur; an import of the same name from a different module); in-place versus rebinding (`a += b` vs `a = a + b` on arrays or lists that are shared; a slice view modified where a copy was; `sorted(x)` vs `x.sort()`); integer versus float arithmetic or dtype (an integer array receiving floats, `//` vs `/`, `int()` vs `round()`, float vs Decimal / Fraction / timedelta arithmetic, microsecond truncation); mutable default arguments or class attributes shared between instances; late-binding closures / lambdas in loops; generator exhausted on second use; `is` vs `==`; truthiness of 0 / 0.0 / empty arrays / None (`x or default`); dict / set ordering and key identity; `and`/`or` returning operands; chained comparisons; operator precedence (`-x ** 2`, `a % b * c`, unary minus and `%`); exception class hierarchy (`except` order, a subclass relationship); attribute lookup order (instance vs class vs `__getattr__`, property vs attribute, MRO of multiple inheritance); `copy` vs `deepcopy`; `np.array` vs `np.asarray`; `arctan2` argument order hidden behind a helper; string formatting that rounds differently. The location is free (anchored files or anything they use). Keep it small; do not add comments that give it away."""
 ROUNDS["k"] = """THIS ROUND: the defect must be placed OUTSIDE the files listed under "Anchored in" above: in code those files depend on, directly or - better - through one or two intermediate calls (helper modules under beyond/utils, beyond/config.py, beyond/errors.py, beyond/constants.py, package __init__ files and registries, base classes and mixins, sibling modules that share a helper, readers of data files, objects handed in by the caller such as Date / StateVector / Frame / Ephem methods that the anchored code calls). First trace what the mechanism of the property actually calls and reads (follow imports, attribute accesses, dunder methods, inherited methods), then pick a unit that is NOT in the anchored files and whose change breaks the property although every anchored file is byte-identical. Prefer units that look unrelated to the property at first sight (a formatting helper, an exception class, a unit constant, a container method, a comparison or hash method, a default configuration value). The defect may be of any kind. Keep it small; do not add comments that give it away."""
+ROUNDS["l"] = ROUNDS["k"]
 ROUNDS["j"] = """THIS ROUND: put the defect into a RARELY EXERCISED PATH of the mechanism: an option, keyword, branch, subclass, error path, fallback or input class that ordinary use and the test-suite never reach (check with a quick grep of tests/ that nothing there exercises it), but that the property statement nevertheless covers (it says "every", "any", "whichever", "forwards and backwards", "for all"). Look for: `else` / `elif` arms and `except` handlers; keyword arguments with non-default values; hyperbolic / retrograde / equatorial / circular / polar / backward-in-time / negative-step / empty / single-element / duplicate / unsorted / boundary-equal inputs; non-default configuration values; secondary subclasses; the XML twin of a KVN path or vice versa; re-use of an object a second time. The defect itself may be of any kind (logic, missing update of a sibling, wrong variable, wrong index, stale state), but it must sit on such a path. Keep it small; do not add comments that give it away."""
 tried = {}
 for d in sorted(glob.glob('/verif/seeded/*')):
